@@ -424,6 +424,13 @@ impl Prop for C16 {
                 text.old = o.into_bytes();
                 text.new = n.into_bytes();
             }
+            161 | 162 => {
+                // a line above 1 MiB with a two-byte character across 2^20
+                let (o, n) = crate::gen::gen_megaline(rng);
+                text.old = o.into_bytes();
+                text.new = n.into_bytes();
+                text.bytes = false;
+            }
             1..=160 => {
                 // a line with more than 32 separately changed words
                 let (o, n) = crate::gen::gen_zebra_block(rng);
